@@ -124,3 +124,64 @@ prop(
     floors={"any": {"over_limit_cases": 200, "exactly_at_limit_cases": 50, "bodies_delivered_with_exact_length": 100,
                     "lines_exactly_1024": 500, "lines_exactly_1025": 500, "lines_over_limit": 5000, "lines_within_limit": 2000}},
 )
+
+prop(
+    "C06",
+    title="Queued responses reach the stream completely, once, in order, under short writes",
+    level="fault_enumeration",
+    technique="runtime monitoring: shadow write queue checked after every enqueue/try_write call of the real connection under enumerated write faults of a scripted stream",
+    design_ref="DESIGN.md §3 C06",
+    engine="scripted-stream",
+    rule="Exhaustive: every sequence of length 6 (quick) / 8 (thorough) over {enqueue small, enqueue 8 KiB, write with the stream "
+         "accepting 1 / len-1 / len / half, EINTR, EAGAIN, EPIPE, 0 bytes} followed by two flushing writes; every k in 1..len "
+         "at the first and second write of single responses; random runs of 5-60 calls with 0-6 responses outstanding. After "
+         "every call: accepted bytes == shadow concatenation, pending_write() == shadow has unsent bytes, return value, at most "
+         "one stream write, none when nothing is pending. evaluations = sequences executed; distinct_nontrivial = distinct "
+         "sequences that contained at least one partial write or one discard.",
+    assumptions=["responses are serialized with Response::write_all to obtain the expected bytes (serialization itself is C05's subject)"],
+    exhaustive={"quick": "all 10^6 call sequences of length 6 over the 10-letter alphabet", "thorough": "all 10^8 call sequences of length 8 over the 10-letter alphabet"},
+    floors={"any": {"partial_writes": 1000, "discards_after_failure": 1000, "eintr_writes": 500, "writes_with_nothing_pending": 500,
+                    "responses_fully_written": 1000, "single_response_every_k": 200}},
+)
+
+_C03_STAGES = {
+    "quick": [
+        {"flavor": "native", "shards": 16, "scale": 100},
+        {"flavor": "relfast", "shards": 16, "scale": 50},
+        {"flavor": "asan", "shards": 16, "scale": 30, "env": {"ASAN_OPTIONS": "halt_on_error=1:detect_leaks=1:abort_on_error=0"}},
+        {"flavor": "miri", "shards": 16, "scale": 100, "timeout": 900},
+    ],
+    "thorough": [
+        {"flavor": "native", "shards": 16, "scale": 100},
+        {"flavor": "relfast", "shards": 16, "scale": 50},
+        {"flavor": "asan", "shards": 16, "scale": 30, "env": {"ASAN_OPTIONS": "halt_on_error=1:detect_leaks=1:abort_on_error=0"}},
+        {"flavor": "miri", "shards": 16, "scale": 100, "timeout": 3600},
+    ],
+}
+
+prop(
+    "C03",
+    title="No input makes any parsing entry point panic, hang or block",
+    level="exploration",
+    technique="runtime monitoring: panic/abort/step-budget/call-counter monitors on hostile inputs and schedules, repeated under Miri (scripted stream) and AddressSanitizer (scripted stream + real socketpair) and with/without overflow checks",
+    design_ref="DESIGN.md §3 C03",
+    engine="scripted-stream",
+    stages=_C03_STAGES,
+    rule="Inputs: random bytes, structural-byte soup, grammar-derived requests with corruptions, then bit flips / inserted "
+         "NUL,CR,LF,0x80-0xFF / duplication / truncation / 1000+-byte runs / odd Content-Length, lengths 0..60 KiB. Every pure "
+         "parsing entry point is called on each input; connections are driven by random schedules of reads (sizes 1..100000), "
+         "read errors, EOF, writes with faults, enqueue and pop that continue after every error; a real socketpair family "
+         "covers recvmsg/SCM_RIGHTS. The same workload runs in four flavours: overflow-checks+debug-assertions on, off, "
+         "AddressSanitizer, and a reduced Miri run aimed at reads with a large carried prefix. evaluations = cases over all "
+         "flavours; distinct_nontrivial = distinct inputs (pure) plus distinct (input, schedule) whose connection kept being "
+         "used after an error.",
+    assumptions=[
+        "a logical step budget of 2*1024+16 state-machine iterations per try_read stands for 'loops forever'",
+        "ASan cannot see an overflow that stays inside the HttpConnection object; Miri can, on the few hundred reads it affords",
+    ],
+    floors={"quick": {"try_read_calls": 100000, "try_read_calls_after_an_error": 10000, "parse_errors_seen": 1000,
+                      "socketpair_try_read_calls": 1000, "socketpair_descriptors_delivered": 10,
+                      "miri:try_read_calls": 500, "asan:try_read_calls": 10000, "relfast:try_read_calls": 10000},
+            "thorough": {"try_read_calls": 1000000, "miri:try_read_calls": 5000, "asan:try_read_calls": 100000, "relfast:try_read_calls": 100000}},
+    timeout={"quick": 600, "thorough": 7200},
+)
